@@ -33,6 +33,46 @@ def _report(c, cond, label, sig, rp=None, syms=None):
     return ok
 
 
+def param_rules_job(interp, c, case):
+    """'when no rule overwrites species': rules whose targets are all PARAMETERS leave every species count as it is, in the plain
+    and in the volume-aware rule pass, whatever the rule type and whether or not the step flag is set.  The parameters are declared
+    so that a target parameter's index coincides with a species index."""
+    ptargets, = case
+    T = interp.load("bioscrape.types")
+    S = interp.load("bioscrape.simulator")
+    pv = {p: c.real("p_" + p) for p in ("q", "r", "k")}
+    sv = {sp: c.int("s_" + sp, lo=0) for sp in SPECIES}
+    rules = []
+    for i, (typ, tgt) in enumerate(ptargets):
+        if typ == "assignment":
+            rules.append(("assignment", {"equation": "%s = k*A + volume + t" % tgt}, "repeated"))
+        elif typ == "assignment-dt":
+            rules.append(("assignment", {"equation": "%s = k + B" % tgt}, "dt"))
+        else:
+            rules.append(("ode", {"equation": "k*B + volume", "target": tgt}, "dt"))
+    M = T.ns["Model"](species=list(SPECIES), parameters=list(pv.items()), rules=rules, initial_condition_dict=dict(sv))
+    itf = S.ns["ModelCSimInterface"](M)
+    dt = c.real("dt", lo=0, lo_strict=True)
+    itf.py_set_dt(dt)
+    t, V = c.real("t", lo=0), c.real("V", lo=0, lo_strict=True)
+    rs = c.int("rs", lo=0, hi=1)
+    order = M.get_species_list()
+    for vol in (False, True):
+        st = np.array([sv[sp] for sp in order], dtype=object)
+        try:
+            if vol:
+                itf.apply_repeated_volume_rules(ptr(interp, st), V, t, rs)
+            else:
+                itf.apply_repeated_rules(ptr(interp, st), t, rs)
+        except CFault as e:
+            _report(c, False, "rules %s (%s pass): memory-unsafe access (%s)" % (ptargets, "volume" if vol else "plain", e), "parameter rule unsafe",
+                    dict(kind="param_rules", rules=[list(x) for x in ptargets]))
+            continue
+        _report(c, s_and(*[st[i] == sv[sp] for i, sp in enumerate(order)]),
+                "rules that assign to parameters only (%s) leave all species counts unchanged in the %s rule pass" % (ptargets, "volume-aware" if vol else "plain"),
+                "parameter rule writes species (%s)" % ("volume" if vol else "plain"), dict(kind="param_rules", rules=[list(x) for x in ptargets]))
+
+
 def massaction_job(interp, c, case):
     """case = (reactants, products, delay_reactants, delay_products)"""
     reactants, products, dre, dpr = case
@@ -236,6 +276,8 @@ def check(tier):
     k = max(1, (len(mc) + n - 1) // n)
     for i in range(0, len(mc), k):
         ck.add("massaction/%d" % (i // k), "harness.C06", "massaction_job", dict(cases=mc[i:i + k]))
+    ck.add("parameter-rules", "harness.C06", "param_rules_job",
+           dict(cases=[((("assignment", "q"),),), ((("ode", "r"),),), ((("assignment-dt", "k"),),), ((("assignment", "r"), ("ode", "q"), ("assignment-dt", "q")),)]))
     safe = [(1, 1, -3, 3), (2, 1, -2, 2), (1, 2, -2, 2)] + ([(2, 2, -1, 1)] if tier == "thorough" else [])
     for cse in safe:
         ck.add("safe/S%dR%d" % cse[:2], "harness.C06", "safe_job", dict(cases=[cse]), max_paths=200000)
